@@ -84,10 +84,10 @@ ASMJIT_FAVOR_SIZE Error init_func_detail(FuncDetail& func, const FuncSignature& 
 
   // Minimum stack size of a single argument passed via stack. The standard AArch64 calling convention
   // specifies 8 bytes, so each function argument would occupy at least 8 bytes even if it needs less.
-  // However, Apple has decided to not follow this rule and function argument can occupy less, for
-  // example two consecutive 32-bit arguments would occupy 8 bytes total, instead of 16 as specified
-  // by ARM.
-  uint32_t min_stack_arg_size = cc.strategy() == CallConvStrategy::kAArch64Apple ? 4u : 8u;
+  // However, Apple has decided to not follow this rule and function argument only occupies its size
+  // and is aligned to its natural alignment, for example two consecutive 32-bit arguments would occupy
+  // 8 bytes total, instead of 16 as specified by ARM, and two 8-bit arguments would occupy 2 bytes.
+  uint32_t min_stack_arg_size = cc.strategy() == CallConvStrategy::kAArch64Apple ? 1u : 8u;
 
   if (func.has_ret()) {
     for (uint32_t value_index = 0; value_index < Globals::kMaxValuePack; value_index++) {
@@ -155,10 +155,9 @@ ASMJIT_FAVOR_SIZE Error init_func_detail(FuncDetail& func, const FuncSignature& 
             gpz_pos++;
           }
           else {
+            // The size of an integer is always a power of 2, which is also its natural alignment.
             uint32_t size = Support::max<uint32_t>(TypeUtils::size_of(type_id), min_stack_arg_size);
-            if (size >= 8) {
-              stack_offset = Support::align_up(stack_offset, 8);
-            }
+            stack_offset = Support::align_up(stack_offset, size);
             arg.assign_stack_offset(int32_t(stack_offset));
             stack_offset += size;
           }
@@ -185,10 +184,8 @@ ASMJIT_FAVOR_SIZE Error init_func_detail(FuncDetail& func, const FuncSignature& 
           }
           else {
             uint32_t size = Support::max<uint32_t>(TypeUtils::size_of(type_id), min_stack_arg_size);
-            if (size >= 8) {
-              // 128-bit vectors are aligned to 16 bytes, everything else to 8 bytes.
-              stack_offset = Support::align_up(stack_offset, size >= 16u ? 16u : 8u);
-            }
+            // 128-bit vectors are aligned to 16 bytes, 64-bit types to 8 bytes, and 32-bit types to 4 bytes.
+            stack_offset = Support::align_up(stack_offset, size >= 16u ? 16u : size >= 8u ? 8u : 4u);
             arg.assign_stack_offset(int32_t(stack_offset));
             stack_offset += size;
           }
